@@ -272,10 +272,16 @@ theorem isEmpty_succ {κ : Type} (dflt : ν) (d : Nat) (f : Tree κ ν (d + 1)) 
 theorem noEmptyB_succ {κ : Type} (dflt : ν) (d : Nat) (f : Tree κ ν (d + 1)) :
     noEmptyB dflt (d + 1) f = List.all f (fun e => !isEmpty dflt d e.2 && noEmptyB dflt d e.2) := rfl
 
-theorem chainOK_zero {κ : Type} (f : Tree κ ν 1) : chainOK 0 f = !(List.isEmpty f) := rfl
+theorem chainLeaf_zero {κ : Type} (owned : Bool) (dflt : ν) (f : Tree κ ν 1) :
+    chainLeaf owned dflt 0 f = some dflt := rfl
 
-theorem chainOK_succ_cons {κ : Type} (d : Nat) (e : κ × Tree κ ν (d + 1)) (r : List (κ × Tree κ ν (d + 1))) :
-    chainOK (d + 1) (show Tree κ ν (d + 2) from e :: r) = chainOK d e.2 := rfl
+theorem chainLeaf_succ_cons {κ : Type} (owned : Bool) (dflt : ν) (d : Nat) (e : κ × Tree κ ν (d + 1))
+    (r : List (κ × Tree κ ν (d + 1))) :
+    chainLeaf owned dflt (d + 1) (show Tree κ ν (d + 2) from e :: r) = chainLeaf owned dflt d e.2 := rfl
+
+theorem chainLeaf_succ_nil {κ : Type} (owned : Bool) (dflt : ν) (d : Nat) :
+    chainLeaf owned dflt (d + 1) (show Tree κ ν (d + 2) from ([] : List (κ × Tree κ ν (d + 1)))) = some dflt := by
+  cases owned <;> rfl
 
 theorem WF_succ {κ : Type} [LT κ] (d : Nat) (f : Tree κ ν (d + 1)) :
     WF (d + 1) f ↔ (Sorted (show List (κ × Tree κ ν d) from f) ∧ ∀ e ∈ (show List (κ × Tree κ ν d) from f), WF d e.2) :=
@@ -299,7 +305,7 @@ structure GoodTree (dflt : ν) (d : Nat) (t : Tree Nat ν (d + 1)) : Prop where
   ne       : asList t ≠ []
   noEmpty  : noEmptyB dflt (d + 1) t = true
   notEmpty : isEmpty dflt (d + 1) t = false
-  chain    : chainOK d t = true
+  chain    : ∀ owned : Bool, chainLeaf owned dflt d t = some dflt
   wf       : WF (d + 1) t
 
 theorem makeFiber_good (dflt : ν) : ∀ (d : Nat) (l : Nest ν (d + 1)) (t : Tree Nat ν (d + 1)),
@@ -329,10 +335,7 @@ theorem makeFiber_good (dflt : ν) : ∀ (d : Nat) (l : Nest ν (d + 1)) (t : Tr
       intro e he
       have := hmem e he
       simp [isEmpty, this]
-    · show (!(List.isEmpty (items (leafKeep dflt) 0 l))) = true
-      cases hh : items (leafKeep dflt) 0 l with
-      | nil => exact absurd hh hne
-      | cons e r => rfl
+    · intro owned; rfl
     · exact ⟨items_sorted _ _ _, fun _ _ => trivial⟩
   | succ d ih =>
     intro l t h
@@ -351,11 +354,12 @@ theorem makeFiber_good (dflt : ν) : ∀ (d : Nat) (l : Nest ν (d + 1)) (t : Tr
       apply all_false_of_ne_nil hne
       intro e he
       exact (hmem e he).notEmpty
-    · cases hh : items (makeFiber dflt d) 0 l with
+    · intro owned
+      cases hh : items (makeFiber dflt d) 0 l with
       | nil => exact absurd hh hne
       | cons e r =>
         have he : e ∈ items (makeFiber dflt d) 0 l := by rw [hh]; exact List.mem_cons_self ..
-        exact (hmem e he).chain
+        exact (hmem e he).chain owned
     · exact ⟨items_sorted _ _ _, fun e he => (hmem e he).wf⟩
 
 theorem allDefault_succ (dflt : ν) (d : Nat) (l : Nest ν (d + 1)) :
@@ -632,15 +636,15 @@ theorem present_of_noEmpty {κ : Type} (dflt : ν) (d : Nat) (f : Tree κ ν (d 
   rw [Bool.and_eq_true] at this
   exact this.1
 
-theorem uncompress_zero (dflt : ν) (n : Nat) (ns : List Nat) (f : Tree Nat ν 1) :
-    uncompress dflt 0 (n :: ns) f =
-      uncRows (fun (v : ν) => some v) (fillEmpty (if chainOK 0 f then some dflt else none) 0 ns)
+theorem uncompress_zero (owned : Bool) (dflt : ν) (n : Nat) (ns : List Nat) (f : Tree Nat ν 1) :
+    uncompress owned dflt 0 (n :: ns) f =
+      uncRows (fun (v : ν) => some v) (fillEmpty (chainLeaf owned dflt 0 f) 0 ns)
         (orMerge (present dflt 0 f) (rangeFib n)) := rfl
 
-theorem uncompress_succ (dflt : ν) (d n : Nat) (ns : List Nat) (f : Tree Nat ν (d + 2)) :
-    uncompress dflt (d + 1) (n :: ns) f =
-      uncRows (fun (t : Tree Nat ν (d + 1)) => uncompress dflt d ns t)
-        (fillEmpty (if chainOK (d + 1) f then some dflt else none) (d + 1) ns)
+theorem uncompress_succ (owned : Bool) (dflt : ν) (d n : Nat) (ns : List Nat) (f : Tree Nat ν (d + 2)) :
+    uncompress owned dflt (d + 1) (n :: ns) f =
+      uncRows (fun (t : Tree Nat ν (d + 1)) => uncompress owned dflt d ns t)
+        (fillEmpty (chainLeaf owned dflt (d + 1) f) (d + 1) ns)
         (orMerge (present dflt (d + 1) f) (rangeFib n)) := rfl
 
 theorem allDefault_zero {dflt v : ν} : allDefault dflt 0 v = true ↔ v = dflt := by
@@ -701,6 +705,67 @@ theorem fillEmpty_of_rect (dflt : ν) : ∀ (d : Nat) (ns : List Nat) (x : Nest 
       intro b hb
       have := (hfill b hb).symm.trans (hfill c0 hc0)
       exact Option.some.inj this
+
+theorem cv_fromUncompressed_noEmpty (dflt : ν) (d : Nat) (n : Nest ν (d + 1)) :
+    noEmptyB dflt (d + 1) (fromUncompressed dflt d n) = true := by
+  cases h : makeFiber dflt d n with
+  | some t => rw [fromUncompressed_of_some h]; exact (makeFiber_good dflt d n t h).noEmpty
+  | none => rw [fromUncompressed_of_none h]; rfl
+
+/-- the leaf default `_fillempty` finds on the tree built from a nest is the default, for a
+    free and for a tensor-owned fiber alike -/
+theorem cv_chainLeaf_fromUncompressed (owned : Bool) (dflt : ν) (d : Nat) (n : Nest ν (d + 1)) :
+    chainLeaf owned dflt d (fromUncompressed dflt d n) = some dflt := by
+  cases hm : makeFiber dflt d n with
+  | some t => rw [fromUncompressed_of_some hm]; exact (makeFiber_good dflt d n t hm).chain owned
+  | none =>
+    rw [fromUncompressed_of_none hm]
+    cases d with
+    | zero => rfl
+    | succ d => exact chainLeaf_succ_nil owned dflt d
+
+/-- Round trip through `uncompress`, for a free (`owned = false`) or tensor-owned fiber. -/
+theorem cv_uncompress_roundtrip (owned : Bool) (dflt : ν) : ∀ (d : Nat) (dims : List Nat) (n : Nest ν (d + 1)),
+    rectB (d + 1) dims n = true → (∀ k ∈ dims, 0 < k) →
+    uncompress owned dflt d dims (fromUncompressed dflt d n) = some n := by
+  intro d
+  induction d with
+  | zero =>
+    intro dims n hr hpos
+    cases dims with
+    | nil => rw [rectB_succ_nil] at hr; cases hr
+    | cons m ns =>
+      obtain ⟨hlen, _⟩ := rect_parts hr
+      rw [uncompress_zero, present_of_noEmpty dflt 0 _ (cv_fromUncompressed_noEmpty dflt 0 n),
+        cv_chainLeaf_fromUncompressed owned dflt 0 n, fillEmpty_zero, rangeFib_eq, ← hlen,
+        fromUncompressed_zero]
+      refine (uncRows_lockstep (leafKeep dflt) (fun (v : ν) => some v) (some dflt) (asNestList n) 0).trans ?_
+      apply mapMOpt_eq_some_self
+      intro x _
+      cases hk : leafKeep dflt x with
+      | none => exact congrArg some (leafKeep_eq_none.1 hk).symm
+      | some w => exact congrArg some (leafKeep_eq_some.1 hk).2.symm
+  | succ d ih =>
+    intro dims n hr hpos
+    cases dims with
+    | nil => rw [rectB_succ_nil] at hr; cases hr
+    | cons m ns =>
+      obtain ⟨hlen, hall⟩ := rect_parts hr
+      have hpos' : ∀ k ∈ ns, 0 < k := fun k hk => hpos k (List.mem_cons_of_mem _ hk)
+      rw [uncompress_succ, present_of_noEmpty dflt (d + 1) _ (cv_fromUncompressed_noEmpty dflt (d + 1) n),
+        cv_chainLeaf_fromUncompressed owned dflt (d + 1) n, rangeFib_eq, ← hlen,
+        fromUncompressed_succ]
+      refine (uncRows_lockstep (makeFiber dflt d) (fun t => uncompress owned dflt d ns t)
+        (fillEmpty (some dflt) (d + 1) ns) (asNestList n) 0).trans ?_
+      apply mapMOpt_eq_some_self
+      intro x hx
+      cases hk : makeFiber dflt d x with
+      | none =>
+        exact fillEmpty_of_rect dflt (d + 1) ns x (hall x hx) hpos' ((makeFiber_eq_none_iff dflt d x).1 hk)
+      | some w =>
+        have := ih ns x (hall x hx) hpos'
+        rw [fromUncompressed_of_some hk] at this
+        exact this
 
 end Unc
 
